@@ -322,6 +322,11 @@ func (p *ReverseProxy) clusterInvoke(srv *BfeServer, cluster *bfe_cluster.BfeClu
 			retVal := hl.FilterForward(request)
 			switch retVal {
 			case bfe_module.BfeHandlerFinish:
+				// The request is not sent to the selected backend, so it was
+				// never counted as an active connection of it: forget the
+				// backend, otherwise FinishReq() would decrement its counter.
+				request.Trans.Backend = nil
+
 				// close the connection after response
 				action = closeAfterReply
 				return
